@@ -1016,6 +1016,17 @@ class Pass3(CompilePass):
                 'A function with the same name exists',
                 node=node.lvalue)
 
+    def process_input_pre(self, node):
+        # the same for the targets of INPUT and READ
+        for target in node.var_list:
+            if not isinstance(target, Lvalue):
+                raise CompileError(
+                    EC.DUPLICATE_DEFINITION,
+                    'A function with the same name exists',
+                    node=target)
+
+    process_read_pre = process_input_pre
+
     def process_select_block_pre(self, node):
         vtype = node.value.type
         for case, body in node.case_blocks:
